@@ -1,7 +1,9 @@
 /* LD_PRELOAD shim: the process sees a wall clock that was set to PV_CLOCK_SET (seconds since the epoch, optional
  * fraction "S.NNNNNNNNN") at its first reading and runs at normal speed from there. Only CLOCK_REALTIME moves;
  * monotonic clocks (sleep, timeouts) are untouched. Used by the C11/C12/C13 checks to put "now" on calendar
- * boundaries, which no amount of input generation can do. */
+ * boundaries, which no amount of input generation can do.
+ * With PV_CLOCK_FREEZE set the wall clock does not run at all: every reading returns exactly PV_CLOCK_SET, so that a
+ * claim can be placed on "now" to the nanosecond. */
 #define _GNU_SOURCE
 #include <dlfcn.h>
 #include <stdlib.h>
@@ -11,6 +13,7 @@
 
 static int (*real_clock_gettime)(clockid_t, struct timespec *);
 static long long offset_ns;
+static long long frozen_at = -1;
 static int ready;
 
 static void init(void) {
@@ -34,6 +37,7 @@ static void init(void) {
     struct timespec now;
     real_clock_gettime(CLOCK_REALTIME, &now);
     offset_ns = target - ((long long)now.tv_sec * 1000000000LL + now.tv_nsec);
+    if (getenv("PV_CLOCK_FREEZE")) frozen_at = target;
   }
   ready = 1;
 }
@@ -42,6 +46,11 @@ int clock_gettime(clockid_t id, struct timespec *ts) {
   init();
   if (!real_clock_gettime) return -1;
   int r = real_clock_gettime(id, ts);
+  if (r == 0 && id == CLOCK_REALTIME && frozen_at >= 0) {
+    ts->tv_sec = frozen_at / 1000000000LL;
+    ts->tv_nsec = frozen_at % 1000000000LL;
+    return r;
+  }
   if (r == 0 && id == CLOCK_REALTIME && offset_ns != 0) {
     long long t = (long long)ts->tv_sec * 1000000000LL + ts->tv_nsec + offset_ns;
     ts->tv_sec = t / 1000000000LL;
